@@ -594,6 +594,7 @@ func (viso *VirtualISO) makeVolumeDescriptors(volumeName string) {
 		Header: volumeDescriptorHeader{
 			Type:       volumeTypeTerminator,
 			Identifier: standardIdentifierBytes,
+			Version:    1,
 		},
 	}
 
